@@ -173,7 +173,7 @@ __CPROVER_ensures(g_new != g_old || (__CPROVER_return_value == 0 && g_set_n == 0
 /* changed value: exactly cell `index` of values[] changes */
 __CPROVER_ensures(g_new == g_old || SRT->values[g_c] == ((g_c == INP->index) ? g_new : g_vc))
 /* ... sorted[] is again sorted and a permutation of values[] (arbitrary g_v); the copy exists */
-__CPROVER_ensures(g_new == g_old || (SORTED_ADJ(SRT->sorted) && SRT->copied == 1 &&
+__CPROVER_ensures(g_new == g_old || (SORTED_ADJ(SRT->sorted) && SRT->copied != 0 && (g_copied != 0 || SRT->copied == 1) &&
 	COUNT(SRT->sorted, g_v) == COUNT(SRT->values, g_v) &&
 	COUNT(SRT->values, g_v) == g_cntv - (g_v == g_old) + (g_v == g_new)))
 /* ... chan_set only on output rows, in row order, each needed row at most once with its new value, no other row */
